@@ -100,36 +100,46 @@ Fixpoint kept_before_effect (vp : string) (asg : list (string * node)) (es : lis
        end) || kept_before_effect vp asg rest
   end.
 
+(** All temporaries read by [op], in the order in which [op] reads them (pre-order = left to right). *)
+Fixpoint temps_preorder (vp : string) (n : node) : list string :=
+  match is_temp_ident vp n with
+  | Some t => [t]
+  | None =>
+      match n with
+      | Node _ cs =>
+          (fix go (l : list node) : list string :=
+             match l with [] => [] | x :: l' => temps_preorder vp x ++ go l' end) cs
+      end
+  end.
+
 Definition seq_order_issues (vp : string) (asg : list (string * node)) (op : node) : list string :=
   let assigned := map fst asg in
+  let keep l := filter (fun x => existsb (String.eqb x) assigned) l in
+  (* the order in which the operation reads the temporaries is the order in which the source
+     evaluated the operands they stand for *)
+  let natural := keep (dedup_str [] (temps_preorder vp op)) in
   match view_op op with
   | OpOperands es =>
-      let expected := filter (fun t => existsb (String.eqb t) assigned) (dedup_str [] (temps_of vp es)) in
-      (if list_str_eqb expected assigned then [] else ["assignments-out-of-order"]) ++
+      (if list_str_eqb natural assigned then [] else ["assignments-out-of-order"]) ++
       (if kept_before_effect vp asg es then ["kept-identifier-before-effect"] else [])
   | OpCall f t rest =>
+      (* source order is F, T, arguments; T before F is the exempt order, for a static F only *)
       let tf := temps_of vp [t] in
       let ff := temps_of vp [f] in
-      let restt := dedup_str (tf ++ ff) (temps_of vp rest) in
-      let keep l := filter (fun x => existsb (String.eqb x) assigned) l in
-      let e1 := keep (dedup_str [] (tf ++ ff ++ restt)) in
-      let e2 := keep (dedup_str [] (ff ++ tf ++ restt)) in
+      let swapped := keep (dedup_str [] (tf ++ ff ++ temps_preorder vp op)) in
       let f_rhs := match is_temp_ident vp f with Some x => assoc_str x asg | None => None end in
       let f_static := match f_rhs with
                       | Some (Node (K KMember _ _) [obj; _]) =>
-                          (* t.m with t the this-temporary is the ordinary method call; otherwise the path must be static *)
                           match is_temp_ident vp obj with Some _ => true | None => static_path obj end
                       | Some other => static_path other
                       | None => true
                       end in
-      (* source order is F, T, arguments; T before F is the exempt order, for a static F only *)
-      (if list_str_eqb e2 assigned then []
-       else if list_str_eqb e1 assigned then (if f_static then [] else ["this-before-nonstatic-path"])
+      (if list_str_eqb natural assigned then []
+       else if list_str_eqb swapped assigned then (if f_static then [] else ["this-before-nonstatic-path"])
        else ["assignments-out-of-order"]) ++
       (if kept_before_effect vp asg (t :: rest) then ["kept-identifier-before-effect"] else [])
   | OpBare f rest =>
-      let expected := filter (fun t => existsb (String.eqb t) assigned) (dedup_str [] (temps_of vp rest)) in
-      (if list_str_eqb expected assigned then [] else ["assignments-out-of-order"]) ++
+      (if list_str_eqb natural assigned then [] else ["assignments-out-of-order"]) ++
       (if kept_before_effect vp asg rest then ["kept-identifier-before-effect"] else [])
   | OpUnknown => []
   end.
